@@ -37,15 +37,15 @@ func (c ChainCfg) YAML() string {
 		sb.WriteString("taint-tracking-problems:\n")
 		for _, src := range []string{"^Source$", "^SourceB$"} {
 			fmt.Fprintf(&sb, "  - sources:\n      - package: \"vprog/rt$\"\n        method: %q\n", src)
-			sb.WriteString("    sinks:\n      - package: \"vprog/rt$\"\n        method: \"^Sink[S2]?$\"\n")
+			sb.WriteString("    sinks:\n      - package: \"vprog/rt$\"\n        method: \"^Sink[SR2]?$\"\n")
 			sb.WriteString(c.Problem)
 		}
 	} else {
 		sb.WriteString("taint-tracking-problems:\n  - sources:\n      - package: \"vprog/rt$\"\n        method: \"^Source[B]?$\"\n")
-		sb.WriteString("    sinks:\n      - package: \"vprog/rt$\"\n        method: \"^Sink[S2]?$\"\n")
+		sb.WriteString("    sinks:\n      - package: \"vprog/rt$\"\n        method: \"^Sink[SR2]?$\"\n")
 		sb.WriteString(c.Problem)
 	}
-	sb.WriteString("slicing-problems:\n  - backtracepoints:\n      - package: \"vprog/rt$\"\n        method: \"^Sink[S2]?$\"\n")
+	sb.WriteString("slicing-problems:\n  - backtracepoints:\n      - package: \"vprog/rt$\"\n        method: \"^Sink[SR2]?$\"\n")
 	sb.WriteString(c.TopLevel)
 	sb.WriteString("options:\n")
 	if !strings.Contains(c.Extra, "log-level:") {
